@@ -96,7 +96,10 @@ func VerifC03() {
 		}
 	case 1: // netmap
 		vDeploy("netmap", false, nil, nil, nil, []any{})
-		vDeploy("balance", false, nil, nil)
+		if m != 6 { // newEpoch on a stand-alone Netmap: Balance checks the Alphabet witness itself when it is told
+			// the epoch, which would refuse the tick and hide a Netmap that has stopped checking it
+			vDeploy("balance", false, nil, nil)
+		}
 		asAlphabet("netmap", "addPeerIR", vBlob("node", 1))
 		vSign(node, true)
 		asAlphabet("netmap", "addNode", []any{[]any{"addr"}, nil, vKey("node"), 1})
@@ -295,6 +298,16 @@ func VerifC03() {
 		sign()
 		switch m {
 		case 0:
+			// one more offered signer: the INNER RING node that stands at this contract's index in the designated
+			// list. The contract's own node is the committee member at that index, not the Inner Ring's
+			irFirst := vAcct("ir0")
+			if vEq(vKey("ir1"), vIRKey(0)) {
+				irFirst = vAcct("ir1")
+			}
+			if vEq(vKey("ir2"), vIRKey(0)) {
+				irFirst = vAcct("ir2")
+			}
+			vSign(irFirst, vBool("innerRingNodeAtTheContractsIndexSigns"))
 			done, _ = vInvoke("alphabet", "emit")
 			check(done, sM, "C03/alphabet.emit-needs-its-own-node")
 		case 1:
